@@ -295,6 +295,41 @@ Theorem C15_sete_rest_of_body : forall ext file_text n fuel b, wf_block b = true
   prepend_i shs acc (sem_block shs (exec_line ext file_text n fuel) no_words no_setvar true n b in_loop w).
 Proof. intros ext file_text n fuel. exact (sete_rest_of_body ext file_text n fuel). Qed.
 
+(** 3e. Output redirections on shell commands. A `set -e`, `source FILE [args]` or function-call line is
+    executed according to its words WITHOUT the redirections (`> f`, `>> f`, `1> f`, `2> f`, `2>> f`
+    written as separate words): two lines with the same such words behave identically, so
+    `source ./lib.sh v1 > load.log` runs in the current shell exactly as `source ./lib.sh v1` does
+    (functions, flag and log persist). (`exit N` is not part of this model: its redirected forms are
+    tied to the binary by layer L2 only.) *)
+Theorem C15_source_with_redirection : forall ext file_text n fuel w l1 l2,
+  cmd_words l1 = cmd_words l2 -> is_shell_words w (cmd_words l1) = true ->
+  exec_pipe ext file_text n fuel w l1 = exec_pipe ext file_text n fuel w l2.
+Proof. intros ext file_text n. exact (pipe_redirection_irrelevant ext file_text n). Qed.
+
+Example C15_redirection_words :
+  cmd_words (S2 "source ./lib.sh v1 > load.log") = cmd_words (S2 "source ./lib.sh v1") /\
+  cmd_words (S2 "set -e 2> /dev/null") = cmd_words (S2 "set -e") /\
+  cmd_words (S2 "source lib0.sh >> out.log 2> /dev/null") = (S2 "source" :: S2 "lib0.sh" :: nil) /\
+  cmd_words (S2 "my-fn a b 1> f") = cmd_words (S2 "my-fn a b").
+Proof. vm_compute. repeat split. Qed.
+
+(** through the model and the grammar: the sourced file's function and `set -e` given with redirections *)
+Definition rd_files (p : str) : option str :=
+  if str_eqb p (S2 "r.sh") then Some (S2 "source lib.sh v1 > load.log
+g
+set -e 2> /dev/null
+fail7
+notreached
+") else if str_eqb p (S2 "lib.sh") then Some (S2 "function g {
+  in_g
+}
+in_lib
+") else None.
+Example C15_redirection_instances :
+  (let '(w, st) := run_script fs_ext rd_files 8 30 (mk_shs false nil nil) (S2 "r.sh") in (s_log w, st)) =
+  ([S2 "in_lib"; S2 "in_g"; S2 "fail7"], 7%Z).
+Proof. vm_compute. reflexivity. Qed.
+
 (** The property, in full, and its refutation on the faithful model (what is left: a token
     holding a newline is not expanded -- first clause, stated for ALL tokens). *)
 Definition C15_full : Prop :=
@@ -348,5 +383,6 @@ Print Assumptions C15_sete_calls_instances.
 Print Assumptions C15_flag_preserved.
 Print Assumptions C15_sete_calls.
 Print Assumptions C15_sete_combined.
+Print Assumptions C15_source_with_redirection.
 Print Assumptions C15_sete_rest_of_body.
 
